@@ -161,13 +161,19 @@ func (E *Engine) callbackModel(x *Exec, name string) func(x *Exec, st *State, fv
 	}
 	return func(x *Exec, st *State, fv Val, args []Val, call *ssa.Call) []Val {
 		a := x.term(st, args[0], true)
-		st.check(x.key+"/pre/"+name, fmt.Sprintf("(not (isNilNode %s))", a), "the visitor is never called with a nil node, at "+x.pos(call.Pos()))
 		tv := st.frames[0].vars["trace"]
 		o := st.objs[tv.A.ObjID]
+		seq := o.Vals[0].S
+		if seq == "Seq_Node" {
+			st.check(x.key+"/pre/"+name, fmt.Sprintf("(not (isNilNode %s))", a), "the visitor is never called with a nil node, at "+x.pos(call.Pos()))
+		}
 		cur := o.Vals[0].T
-		nt := st.fresh("trace", "Seq_Node")
-		st.assume(fmt.Sprintf("(= %s (Seq_Node.snoc %s %s))", nt, cur, a))
-		o.Vals[0] = Val{S: "Seq_Node", T: nt}
+		nt := st.fresh("trace", seq)
+		st.assume(fmt.Sprintf("(= %s (%s.snoc %s %s))", nt, seq, cur, a))
+		o.Vals[0] = Val{S: seq, T: nt}
+		if call.Common().Signature().Results().Len() == 0 {
+			return nil
+		}
 		return []Val{{S: "Bool", T: fmt.Sprintf("(vis %s %s)", cur, a)}}
 	}
 }
@@ -345,8 +351,21 @@ type FuncResult struct {
 func (E *Engine) header(uses []string) string {
 	var b strings.Builder
 	b.WriteString("(set-option :print-success false)\n(set-option :produce-models true)\n(set-logic ALL)\n")
+	E.U.extraSorts["Any"] = true
+	E.U.seqs["Seq_Str"] = "Str"
 	b.WriteString(E.U.prelude())
 	b.WriteString(libPrelude)
+	b.WriteString(bufioPrelude)
+	var pn []string
+	pureStringsMu.Lock()
+	defer pureStringsMu.Unlock()
+	for n := range pureStringsFuncs {
+		pn = append(pn, n)
+	}
+	sort.Strings(pn)
+	for _, n := range pn {
+		b.WriteString(pureStringsFuncs[n])
+	}
 	return b.String()
 }
 
